@@ -432,9 +432,83 @@ def _pattern_ok(p, _seen=None):
     return True
 
 
+def _subterms(t, acc, seen):
+    if t.get_id() in seen:
+        return
+    seen.add(t.get_id())
+    if z3.is_quantifier(t):
+        return          # do not look for triggers under nested binders
+    if z3.is_app(t):
+        for c in t.children():
+            _subterms(c, acc, seen)
+        acc.append(t)
+
+
+def _size(t, memo):
+    k = t.get_id()
+    if k in memo:
+        return memo[k]
+    memo[k] = 1
+    if z3.is_app(t):
+        memo[k] = 1 + sum(_size(c, memo) for c in t.children())
+    return memo[k]
+
+
+def _vars_in(t, vs, memo):
+    k = t.get_id()
+    if k in memo:
+        return memo[k]
+    out = set()
+    for i, v in enumerate(vs):
+        if t.eq(v):
+            out.add(i)
+    if z3.is_app(t):
+        for c in t.children():
+            out |= _vars_in(c, vs, memo)
+    memo[k] = out
+    return out
+
+
+def auto_patterns(vs, body):
+    """choose small array-read / uninterpreted-function triggers covering all bound variables, so that an
+    instantiation does not itself create new instances of the trigger (avoids matching loops)"""
+    acc, seen = [], set()
+    _subterms(body, acc, seen)
+    vmemo, smemo = {}, {}
+    cands = []
+    for t in acc:
+        if not z3.is_app(t) or t.num_args() == 0:
+            continue
+        kind = t.decl().kind()
+        if kind not in (z3.Z3_OP_SELECT, z3.Z3_OP_UNINTERPRETED):
+            continue
+        if not _pattern_ok(t):
+            continue
+        if kind == z3.Z3_OP_SELECT and not z3.is_const(t.arg(0)):
+            continue      # reads of computed arrays (stores, ites) make poor triggers
+        vv = _vars_in(t, vs, vmemo)
+        if not vv:
+            continue
+        cands.append((_size(t, smemo), t, vv))
+    cands.sort(key=lambda c: c[0])
+    allv = set(range(len(vs)))
+    full = [t for _sz, t, vv in cands if vv == allv]
+    if full:
+        return full[:2]
+    # multi-pattern: greedily cover the variables with the smallest terms
+    chosen, covered = [], set()
+    for _sz, t, vv in cands:
+        if not vv <= covered:
+            chosen.append(t)
+            covered |= vv
+        if covered == allv:
+            return [z3.MultiPattern(*chosen)] if len(chosen) > 1 else chosen
+    return []
+
+
 def FA(vs, body, patterns=None):
-    """ForAll with triggers; inadmissible triggers (boolean structure, arithmetic relations, terms without the
-    bound variable) are dropped and z3 infers its own"""
+    """ForAll with triggers.  Inadmissible triggers (boolean structure, arithmetic relations) are dropped; without
+    usable triggers small array-read / function-application triggers are chosen from the body."""
     pats = []
     for p in patterns or ():
         try:
@@ -446,6 +520,11 @@ def FA(vs, body, patterns=None):
             pats.append(p)
         except Exception:
             continue
+    if not pats:
+        try:
+            pats = auto_patterns(list(vs), body)
+        except Exception:
+            pats = []
     if pats:
         try:
             return z3.ForAll(vs, body, patterns=pats)
